@@ -30,7 +30,8 @@ Definition candidate_atoms (s : spec) : list string :=
                                                       (dom_of s (ch_subj c))) fes
                      | SDef subj _ newpred _ => map (fun x0 => atom_text newpred [x0]) (dom_of s subj)
                      | SCons _ _ _ _ => []
-                     | SOneOf _ _ _ => [] end) (sentences s).
+                     | SOneOf _ _ _ => []
+                     | SThere _ _ _ _ _ => [] end) (sentences s).
 Fixpoint powerset (l : list string) : list (list string) :=
   match l with [] => [[]] | x :: r => let p := powerset r in (p ++ map (cons x) p)%list end.
 
